@@ -6,6 +6,7 @@
    scopes hosted by t. *)
 From Coq Require Import ZArith.
 From AV Require Import Base Machine ScopeFrames DeliverInv TreeInv DeliverAlive PotentialInv TreeStep KernelInv DeliverThms PotentialThms CycleThms NativeAbsorbed DebtInv HdInv DebtThms.
+From AV Require Import ChainWindow ReceiptWalk ReceiptRun NativeHonoured.
 
 (* the three RuntimeError guards of __exit__: otherwise nothing changes *)
 Theorem C05_scope_exit_guarded : forall s c t exc,
@@ -264,3 +265,72 @@ Theorem C05_child_foreign_delivery_refuted :
   ext_count s0 child_mid 2 = 0%Z.
 Proof. exact child_foreign_delivery_witness. Qed.
 Print Assumptions C05_child_foreign_delivery_refuted.
+
+(* ---------------- a native cancellation request is honoured (audit C05, clause 9 / finding F19) ---------------- *)
+(* Notions: NHeld s t -- t holds a NATIVE request that its next step will receive (Task._must_cancel with the empty
+   message, or the future it waits on was cancelled natively);  aff a o -- the tasks op o affects directly (actor or
+   resumed task, created task, task whose done-callback runs);  unaffected t s ops -- t is in aff of no op of the
+   list;  receives_native s h t -- running ready handle h makes t receive a native CancelledError;
+   wait_cancelled_by_scope s t -- the future t waits on already carries a scope-tagged cancellation. *)
+
+(* Task.cancel() on an unfinished task records the request *)
+Theorem C05_native_request_placed : forall (a : st) (t : tid),
+  k_done (tasks a t) = None -> NHeld (fst (step a (ANativeCancel t))) t.
+Proof. exact native_request_placed. Qed.
+Print Assumptions C05_native_request_placed.
+
+(* it stays recorded across every op of every reachable state that does not resume (or otherwise affect) the task:
+   no delivery, no API call of another task, no callback erases or overwrites it *)
+Theorem C05_native_request_stays_pending : forall (a : st) (o : op) (t : tid),
+  reach_ok a -> op_ok a o = true -> ~ In t (aff a o) -> NHeld a t -> NHeld (fst (step a o)) t.
+Proof. exact native_request_stays_pending. Qed.
+Print Assumptions C05_native_request_stays_pending.
+
+(* when the task is resumed with the request recorded it receives a native CancelledError, the ONLY exception being
+   that the wait it is resumed from already carries a scope-tagged cancellation (F19: asyncio keeps that one) *)
+Theorem C05_native_request_received : forall (s : st) (h : handle) (t : tid),
+  reach_ok s -> In h (ready s) -> (h = HStep t \/ exists f, h = HWake t f) -> NHeld s t ->
+  receives_native s h t \/ (k_must (tasks s t) = true /\ wait_cancelled_by_scope s t = true).
+Proof. exact native_request_received. Qed.
+Print Assumptions C05_native_request_received.
+
+(* together: a native request made on an unfinished task whose wait has not already been cancelled by a scope's
+   delivery (boolean hypothesis on the state at the request) is, after any further ops that do not resume the task,
+   still pending, and whichever ready handle resumes the task then raises a native CancelledError in it *)
+Theorem C05_native_request_honoured : forall (a : st) (t : tid) (ops : list op),
+  reach_ok a -> k_done (tasks a t) = None -> t < ntask a -> wait_cancelled_by_scope a t = false ->
+  let a1 := fst (step a (ANativeCancel t)) in
+  ops_ok a1 ops = true -> unaffected t a1 ops ->
+  let s := final step a1 ops in
+  NHeld s t /\
+  forall h, In h (ready s) -> (h = HStep t \/ exists f, h = HWake t f) -> receives_native s h t.
+Proof. exact native_request_honoured. Qed.
+Print Assumptions C05_native_request_honoured.
+
+(* non-vacuity: a root task sleeps, Task.cancel() from outside, its wake-up raises the native CancelledError *)
+Theorem C05_native_request_honoured_nonvacuous :
+  let a := final step init [ANewRoot; ASleep 1 None] in
+  ops_ok init [ANewRoot; ASleep 1 None] = true /\ k_done (tasks a 1) = None /\ 1 < ntask a /\
+  wait_cancelled_by_scope a 1 = false /\
+  let s := fst (step a (ANativeCancel 1)) in
+  In (HWake 1 2) (ready s) /\ snd (step s (ARun (HWake 1 2))) = RExc (ECancel 0).
+Proof. exact native_request_honoured_premises. Qed.
+Print Assumptions C05_native_request_honoured_nonvacuous.
+
+Theorem C05_native_request_honoured_nonvacuous_instance :
+  let a := final step init [ANewRoot; ASleep 1 None] in
+  let s := fst (step a (ANativeCancel 1)) in
+  NHeld s 1 /\ receives_native s (HWake 1 2) 1.
+Proof. exact native_request_honoured_instance. Qed.
+Print Assumptions C05_native_request_honoured_nonvacuous_instance.
+
+(* the hypothesis is needed (known finding F19, the history of C05_native_request_absorbed_refuted): in f19_ops the request
+   (op 6) is made after the scope's delivery has cancelled the task's wait; no step of the run raises a native
+   cancellation *)
+Theorem C05_native_request_hypothesis_needed :
+  let a := final step init (firstn 6 f19_ops) in
+  nth 6 f19_ops ANewRoot = ANativeCancel 1 /\ ops_ok init f19_ops = true /\
+  k_done (tasks a 1) = None /\ wait_cancelled_by_scope a 1 = true /\
+  existsb is_native_result (results init f19_ops) = false.
+Proof. exact native_request_hypothesis_needed. Qed.
+Print Assumptions C05_native_request_hypothesis_needed.
